@@ -110,7 +110,7 @@ func c19prog(c *Ctx, p *Prog) {
 			}
 			// ---- G2b
 			fn := e.Entry
-			order, ok := DeferRunOrder(fn)
+			order, ok := p.CleanupOrder(fn)
 			if !ok {
 				r.Fail("G2b", ek, p.Pos(fn.Pos()), "UNDECIDED: conditional defer in a goroutine entry")
 				continue
@@ -196,10 +196,13 @@ func c19child(c *Ctx, rt *Routine) {
 	// where does the child get its work from: the inner discipline's output
 	var srcRole string
 	var src *RecvSite
-	for _, rs := range p.RecvSites(fn) {
-		role := p.chanRole(rs.Chan)
-		if role == "call:Output" || role == "field:output" {
-			src, srcRole = rs, role
+	// (the receive loop may sit in a helper the entry calls: serve(dsc.priority.Output()))
+	for _, g := range rt.Funcs {
+		for _, rs := range p.RecvSites(g) {
+			role := p.chanRole(rs.Chan)
+			if role == "call:Output" || role == "field:output" {
+				src, srcRole = rs, role
+			}
 		}
 	}
 	if src == nil {
@@ -227,6 +230,13 @@ func c19child(c *Ctx, rt *Routine) {
 		return false
 	}
 	loops, problems := p.loopCheck(fn, exitPred)
+	for _, g := range rt.Funcs {
+		if g != fn {
+			l2, p2 := p.loopCheck(g, exitPred)
+			loops += l2
+			problems = append(problems, p2...)
+		}
+	}
 	r.Check(len(problems) == 0, "G4", ek+"#child", p.Pos(fn.Pos()), fmt.Sprintf("%d loops leave when the parent terminates", loops), strings.Join(problems, "; "))
 	// G3: the wake-up really happens
 	if hasCtx {
@@ -236,7 +246,7 @@ func c19child(c *Ctx, rt *Routine) {
 		ok := false
 		why := "inner discipline not found"
 		if inner := p.Disc("priority.Discipline"); inner != nil && len(inner.Gos) == 1 {
-			order, okd := DeferRunOrder(inner.Gos[0].Entry)
+			order, okd := p.CleanupOrder(inner.Gos[0].Entry)
 			exp := exposedChannels(p, inner)
 			why = "the inner discipline's entry does not close the channel returned by Output() in an unconditional defer"
 			if okd {
@@ -251,9 +261,25 @@ func c19child(c *Ctx, rt *Routine) {
 	}
 	// G1: blocking operations
 	ord := map[string]int{}
-	for _, op := range p.BlockingOps(fn) {
-		ord[op.Kind]++
-		key := fmt.Sprintf("%s#%s.%d", ek, op.Kind, ord[op.Kind])
+	var ops []*BlockOp
+	inRoutine := map[*ssa.Function]bool{}
+	for _, g := range rt.Funcs {
+		inRoutine[g] = true
+		ops = append(ops, p.BlockingOps(g)...)
+	}
+	for _, op := range ops {
+		fk := ek
+		if op.Fn != fn {
+			fk = p.FnKey(op.Fn)
+		}
+		// a static call of a helper of the same routine: its own operations are listed
+		if ci, isCall := op.In.(ssa.CallInstruction); isCall && op.Kind != "dyncall" {
+			if cal := p.Callee(ci); cal != nil && inRoutine[cal] && cal != op.Fn {
+				continue
+			}
+		}
+		ord[fk+"/"+op.Kind]++
+		key := fmt.Sprintf("%s#%s.%d", fk, op.Kind, ord[fk+"/"+op.Kind])
 		site := p.InstrPos(op.In)
 		switch op.Kind {
 		case "recv":
@@ -265,6 +291,11 @@ func c19child(c *Ctx, rt *Routine) {
 			if why := handleCtxProblem(p, rt, op.In); why != "" && strings.HasSuffix(op.Callee, ".opts.Handle") {
 				r.Fail("G1", key, site, why)
 			} else {
+				if strings.HasSuffix(op.Callee, ".Release$bound") {
+					// the inner discipline's Release handed down as a method value
+					r.Pass("G1", key, site, "Release of the item just handled (method value): the inner discipline consumes releases until nothing is in flight (C07/E4) before it closes anything")
+					continue
+				}
 				r.Check(strings.HasSuffix(op.Callee, ".opts.Handle"), "G1", key, site, "user Handle (contract: returns; v1: honours the context it is given, which the parent cancels)", "UNDECIDED: dynamic call "+op.Callee)
 			}
 		default:
